@@ -30,7 +30,7 @@ lines.append('Of the %d changes, %d were caught by the checks as first written, 
     sum(1 for d in glob.glob(os.path.join(V, 'seeded', '*')) if 'concrete probe' in json.load(open(d + '/meta.json'))['result'].split('Now caught')[-1] or 'via the concrete probe' in json.load(open(d + '/meta.json'))['result'])))
 lines.append('### 9.9 Behaviour-preserving changes: no alarm\n')
 lines.append('Independent sub-agents (same protocol, asked for realistic refactors that keep the property true) '
-             'produced the changes under `refactors/<ID>-<A|B>/` (patch.diff, argument.md, check.log).  '
+             'produced the changes under `refactors/<ID>-<A|B|C|D>/` (patch.diff, argument.md, check.log; `-C`/`-D` come from a second round that was asked for refactors of how data is converted, validated, copied and allocated, to exercise the data-representation probes).  '
              '`tools/eval_refactors.sh` applies each to a scratch worktree and runs the property\'s quick check: '
              'all must exit 0.\n')
 rp = os.path.join(V, 'scratch', 'refactor_results.txt')
